@@ -249,3 +249,14 @@ package dastard
 //@ func (*AbacoGroup).updateFrameTiming
 //@   trusted
 //@   modifies group.LastFirmwareTimestamp, group.LastSubframeCount, group.TimestampCountsPerSubframe
+
+// ---- the reader's per-tick loop: ordering of its steps ----
+// readerMainLoop runs in its own goroutine (select over abort/timeout/ticker) and is not verified as a whole.  This
+// restriction-only contract checks one ordering fact the block assembly depends on: the alignment of the channel groups
+// (firstSeqNum -> max -> trimPacketsBefore) is computed on a queue that has been gap-filled since the last packet was
+// enqueued (ghost nleft == len(queue), which only fillMissingPackets establishes) -- otherwise the filler of a lost first
+// packet, and the real packets of the other groups, would be trimmed away again.
+//@ func (*AbacoSource).readerMainLoop
+//@   props C03
+//@   opt restriction_only
+//@   cut before firstSeqNum: filled: group.nleft == len(group.queue)
